@@ -73,7 +73,22 @@ int snoopy_output_fileoutput (char const * const logMessage, char const * const 
     }
 
     // Try to print to file
+    /*
+     * The whole record must reach the file with a single write() on the
+     * O_APPEND descriptor, otherwise concurrent writers may end up with
+     * interleaved records: give the stream a buffer that holds all of it.
+     */
+    size_t  recordBufSize = strlen(logMessage) + 2; // +1 for the newline, +1 to never fill the buffer completely
+    if (recordBufSize < BUFSIZ) {
+        recordBufSize = BUFSIZ; // stdio bypasses very small buffers
+    }
+    char   *recordBuf     = malloc(recordBufSize);
+    if (NULL != recordBuf) {
+        setvbuf(fp, recordBuf, _IOFBF, recordBufSize);
+    }
+
     charCount = fprintf(fp, "%s\n", logMessage);
     fclose(fp);
+    free(recordBuf);
     return charCount;
 }
